@@ -483,9 +483,9 @@ func init() {
 	register(&Property{
 		ID: "C28",
 		Explanation: "Decides structural necessary conditions of 'symbol names map to valid, distinct identifiers': REGISTER: every site in package compiler that creates a grammar.Symbol with an identifier looks it up in resolver.ids, raises the 'get the same ID' error under exactly the outcome 'already taken' (no further condition), and registers the same identifier (audited exception: mid-rule nonterminals). " +
-			"GUARD(leading-digit): ident.Produce inserts the underscore for a leading digit based on what has been written so far (buf.Len() == 0 inside the rune loop). Not decided: non-emptiness and validity of Produce's output in general (string computation). GUARD(explicit-id): every explicit lexeme id that reaches addToken is the result of ident.Produce(id, UpperCase); the raw spelling (which may contain hyphens or quotes) never does. GUARD(nonempty-id): every return of ident.Produce is a non-empty constant or buf.String() behind the `buf.Len() == 0` fallback. FIELDCOV(taken-names): the set of taken names that keeps extracted mid-rule nonterminals (<nt>$<k>) apart from existing symbols is seeded with the names of all terminals, parameters and nonterminals (Expand creates <nt>$<k> helpers itself).",
-		Rules: []string{"REGISTER", "GUARD(leading-digit)", "GUARD(explicit-id)", "GUARD(nonempty-id)", "FIELDCOV(taken-names)"},
-		Run:   func(c *Ctx) { ruleREGISTER(c); ruleLEADINGDIGIT(c); ruleEXPLICITID(c); ruleNONEMPTYID(c); ruleTAKENNAMES(c) },
+			"GUARD(leading-digit): ident.Produce inserts the underscore for a leading digit based on what has been written so far (buf.Len() == 0 inside the rune loop). Not decided: non-emptiness and validity of Produce's output in general (string computation). GUARD(explicit-id): every explicit lexeme id that reaches addToken is the result of ident.Produce(id, UpperCase); the raw spelling (which may contain hyphens or quotes) never does. GUARD(nonempty-id): every return of ident.Produce is a non-empty constant or buf.String() behind the `buf.Len() == 0` fallback. REGISTER's mid-rule clause: an extracted mid-rule nonterminal <nt>$<k> is accepted only if its identifier is not taken (set seeded from the identifiers of all symbols), and the identifier is recorded.",
+		Rules: []string{"REGISTER", "GUARD(leading-digit)", "GUARD(explicit-id)", "GUARD(nonempty-id)"},
+		Run:   func(c *Ctx) { ruleREGISTER(c); ruleLEADINGDIGIT(c); ruleEXPLICITID(c); ruleNONEMPTYID(c) },
 	})
 }
 
